@@ -65,7 +65,7 @@ func (monC01) TaskEnd(s *Sim, t *Task) {
 		}
 	}
 
-	if !t.Clean() || (role != "active" && role != "canary") {
+	if !t.CleanButPodPatches() || (role != "active" && role != "canary") {
 		return
 	}
 	inScope := func(node string) bool {
